@@ -93,7 +93,11 @@ def observe_steps(dom=False):
 
 
 def view_steps(dom=False):
-    return ["?gp:p:p", "?hp:p:p:%s" % enc_rule(p_rules(dom)[0]), "?gf:p:p:0:%s" % enc_rule(["alice"]),
+    # full-width filters with wildcards (several rules match), filters starting further right, on p and on g
+    full = ["alice", "d1", "", "read", ""] if dom else ["alice", "", "read", ""]
+    extra = ["?gf:p:p:0:%s" % enc_rule(full), "?gf:p:p:0:%s" % enc_rule([""] * len(full)), "?gf:p:p:%d:%s" % (len(full) - 2, enc_rule(["read", ""])),
+             "?gf:g:g:0:%s" % enc_rule(["", "admin"] + (["d1"] if dom else [])), "?gf:g:g:1:%s" % enc_rule(["admin"]), "?gf:g:g:0:%s" % enc_rule(["alice", ""])]
+    return extra + ["?gp:p:p", "?hp:p:p:%s" % enc_rule(p_rules(dom)[0]), "?gf:p:p:0:%s" % enc_rule(["alice"]),
             "?gf:p:p:0:%s" % enc_rule(["", "d1" if dom else "data1"]), "?vl:p:p:0", "?vl:p:p:1", "?vl:g:g:1",
             "?gp:g:g", "?hp:g:g:%s" % enc_rule(g_rules(dom)[0]), "?gp:p:p9"]
 
